@@ -70,7 +70,14 @@ def streams_for(prop):
         import gen_build
         import impl_build
         import ref_build
-        S.append(dict(name="build", gen=gen_build.gen_build, impl=impl_build.run, oracle=ref_build.check_case))
+        S.append(dict(name="build", gen=gen_build.gen_build, impl=impl_build.run, oracle=ref_build.check_case,
+                      always_oracle=True))
+    elif prop in ("C11", "C12"):
+        import gen_table
+        import impl_table
+        import ref_table
+        S.append(dict(name="table", gen=gen_table.gen_table, impl=impl_table.run, mode="spec",
+                      oracle=ref_table.check_C11 if prop == "C11" else ref_table.check_C12, always_oracle=True))
     elif prop in ("C13", "C15"):
         import gen_history
         import ref_history
@@ -112,6 +119,8 @@ PROPS = {
     "C05": dict(title="assignment keeps dims, sums by label"),
     "C06": dict(title="indexing by item labels"),
     "C18": dict(title="systems built from definitions and files"),
+    "C11": dict(title="DataFrame import is faithful to labels"),
+    "C12": dict(title="import refuses incomplete or inconsistent data"),
 }
 
 
@@ -168,8 +177,25 @@ def run_streams(prop, tier, seed, search=False):
             if st.get("oracle"):
                 d["oracle"] = st["oracle"](block, io)
             dis.append(d)
-        # samples for the evidence file: a few full cases with what was observed
         cases = split_cases(lines)
+        if st.get("always_oracle") and st.get("oracle"):
+            # the property-level oracle looks at every case, also where model and implementation agree
+            # (the model mirrors the code; where no theorem covers a stage, the oracle still does)
+            flagged = {tuple(d["block"][:1]) for d in dis}
+            pos = 0
+            n_or = 0
+            for c in cases:
+                io = impl_out[pos:pos + len(c)]
+                pos += len(c)
+                if tuple(c[:1]) in flagged or n_or >= 5:
+                    continue
+                o = st["oracle"](c, io)
+                if o:
+                    n_or += 1
+                    dis.append({"line": o["line"], "impl": o["observed"], "model": "(the model agrees with the implementation)",
+                                "block": c, "oracle": o})
+            stats["oracle_all_cases"] = True
+        # samples for the evidence file: a few full cases with what was observed
         samples = []
         pos = 0
         for ci, c in enumerate(cases):
@@ -220,6 +246,10 @@ def replay_known(kf):
     w = kf.get("witness")
     if not w:
         return False
+    if w.get("runner") == "table":
+        import impl_table
+        lines, out = impl_table.run(w["specs"])
+        return bool(out) and out[-1] == w["defective_observation"]
     ga, ia, ra = _array_streams()
     runner = {"array": ia.run}.get(w.get("runner", "array"))
     out = runner(w["lines"])
